@@ -485,7 +485,7 @@ func c04(r *report.Run) {
 func c04Shapes() map[string]string {
 	rep := func(unit string, n int) string { return strings.Repeat(unit, n/len(unit)) }
 	const K = 65536
-	return map[string]string{
+	m := map[string]string{
 		"open-parens":        rep("(", K),
 		"balanced-parens":    rep("(", K/2-1) + "1" + rep(")", K/2-1),
 		"open-brackets":      rep("[", K),
@@ -520,7 +520,35 @@ func c04Shapes() map[string]string {
 		"nested-calls":       rep("Id(", 20000) + "1" + rep(")", 20000/3),
 		"nested-calls-ok":    rep("Id(", 5000) + "1" + rep(")", 5000),
 	}
+	// moderate nesting (depth 60) of every nesting construct, under every option set of c04DepthOptions: work that is
+	// polynomial in the depth finishes at once, work that doubles per level does not finish at all
+	for name, unit := range map[string][2]string{
+		"calls": {"Id(", ")"}, "calls2": {"Add(1, ", ")"}, "methods": {"O.Plus(", ")"}, "index": {"A[", "]"}, "ternary": {"(B ? 1 : ", ")"}, "arrays": {"[", "]"},
+		"closures": {"count([2], {# > ", "})"}, "unary": {"-(", ")"}, "parens-sum": {"(1 + ", ")"}, "len": {"len([", "])"}, "maps": {"{a: ", "}"}, "fast": {"Fast(", ")"},
+	} {
+		for opt := range c04DepthOptions {
+			m[fmt.Sprintf("depth60:%s:%s", name, opt)] = strings.Repeat(unit[0], 60) + "1" + strings.Repeat(unit[1], 60)
+		}
+	}
+	return m
 }
+
+var c04DepthOptions = map[string]func() []expr.Option{
+	"env":       func() []expr.Option { return []expr.Option{expr.Env(henv.Env{})} },
+	"env+undef": func() []expr.Option { return []expr.Option{expr.Env(henv.Env{}), expr.AllowUndefinedVariables()} },
+	"map+undef": func() []expr.Option {
+		return []expr.Option{expr.Env(henv.AsMap(henv.MakeFull(henv.Val{}))), expr.AllowUndefinedVariables()}
+	},
+	"env+noopt":    func() []expr.Option { return []expr.Option{expr.Env(henv.Env{}), expr.Optimize(false)} },
+	"env+operator": func() []expr.Option { return []expr.Option{expr.Env(henv.Env{}), expr.Operator("+", "OpAdd", "OpCat")} },
+	"env+patch":    func() []expr.Option { return []expr.Option{expr.Env(henv.Env{}), expr.Patch(c04NopVisitor{})} },
+	"noenv":        func() []expr.Option { return nil },
+}
+
+type c04NopVisitor struct{}
+
+func (c04NopVisitor) Enter(*ast.Node) {}
+func (c04NopVisitor) Exit(*ast.Node)  {}
 
 func c04StressChild() {
 	// contain memory: an allocation beyond the limit kills this child, not the sandbox
@@ -532,6 +560,9 @@ func c04StressChild() {
 	ops := []expr.Option{expr.Env(henv.Env{})}
 	if strings.HasPrefix(shape, "overloaded") {
 		ops = append(ops, expr.Operator("+", "Add", "Cat"))
+	}
+	if f := strings.Split(shape, ":"); len(f) == 3 && f[0] == "depth60" {
+		ops = c04DepthOptions[f[2]]()
 	}
 	kind, what := c04All(src, full, ops)
 	if kind != "" {
